@@ -7,15 +7,20 @@ let tname_of_string s = match s with
   | "Int" -> TInt | "Float" -> TFloat | "String" -> TString | "Ref" -> TRef | "Tuple" -> TTuple
   | "Array" -> TArray | "List" -> TList | "Table" -> TTable | "Tree" -> TTree | "Function" -> TFunction
   | "Type" -> TType
+  | "Box" -> TUser (nat_of_int 10) | "Range" -> TUser (nat_of_int 11) | "File" -> TUser (nat_of_int 12) | "Mutex" -> TUser (nat_of_int 13)
   | _ when String.length s > 1 && s.[0] = 'U' -> TUser (nat_of_int (int_of_string (String.sub s 1 (String.length s - 1))))
   | _ -> failwith ("type " ^ s)
 
 let string_of_tname t = match t with
   | TInt -> "Int" | TFloat -> "Float" | TString -> "String" | TRef -> "Ref" | TTuple -> "Tuple"
   | TArray -> "Array" | TList -> "List" | TTable -> "Table" | TTree -> "Tree" | TFunction -> "Function"
-  | TType -> "Type" | TUser n -> "U" ^ string_of_int (int_of_nat n)
+  | TType -> "Type"
+  | TUser n -> (match int_of_nat n with 10 -> "Box" | 11 -> "Range" | 12 -> "File" | 13 -> "Mutex" | k -> "U" ^ string_of_int k)
 
-let cont_of_string s = match s with
+let cont_of_string s =
+  (* "+g" = the container was grown and shrunk before the element was obtained: same producer *)
+  let s = match String.index_opt s '+' with Some i -> String.sub s 0 i | None -> s in
+  match s with
   | "Array" -> CArray | "List" -> CList | "TableK" -> CTableK | "TableV" -> CTableV
   | "TreeK" -> CTreeK | "TreeV" -> CTreeV | _ -> failwith ("container " ^ s)
 
